@@ -99,6 +99,26 @@ Proof.
   destruct (Nat.leb_spec (n + length srcs) cap); [|lia]. sb. rewrite o_rotate by lia. reflexivity.
 Qed.
 
+Lemma o_move_insert_fwd c n pos srcs : n <= cap ->
+  snd (move_insert_fwd fl cap c n pos srcs) =
+  if (pos <=? n) && (n + length srcs <=? cap) then Done (n + length srcs) else Stop.
+Proof.
+  intros Hn. unfold move_insert_fwd. sb.
+  destruct (Nat.leb_spec pos n); cbn [andb]; [|reflexivity]. sb.
+  rewrite o_emplace_all, map_length by exact Hn.
+  destruct (Nat.leb_spec (n + length srcs) cap); [|reflexivity]. sb. rewrite o_rotate by lia. reflexivity.
+Qed.
+
+Lemma o_insert_range_fwd c n pos srcs : n <= cap ->
+  snd (insert_range_fwd fl cap c n pos srcs) =
+  if (pos <=? n) && (n + length srcs <=? cap) then Done (n + length srcs) else Stop.
+Proof.
+  intros Hn. unfold insert_range_fwd. sb.
+  destruct (Nat.leb_spec pos n); cbn [andb]; [|reflexivity]. sb.
+  rewrite o_emplace_all, map_length by exact Hn.
+  destruct (Nat.leb_spec (n + length srcs) cap); [|reflexivity]. sb. rewrite o_rotate by lia. reflexivity.
+Qed.
+
 Lemma o_insert_n c n pos k src : n <= cap ->
   snd (insert_n fl cap c n pos k src) = if (pos <=? n) && (n + k <=? cap) then Done (n + k) else Stop.
 Proof.
@@ -191,6 +211,12 @@ Proof.
   rewrite o_insert_range by lia. cmp.
 Qed.
 
+Lemma o_assign_range_fwd c n srcs :
+  snd (assign_range_fwd fl cap c n srcs) = if length srcs <=? cap then Done (length srcs) else Stop.
+Proof.
+  unfold assign_range_fwd. sb. rewrite o_clear. sb. rewrite o_insert_range_fwd by lia. cmp.
+Qed.
+
 Lemma slots_len o m : length (slots o m) = m.
 Proof. unfold slots. rewrite map_length, seq_length. reflexivity. Qed.
 
@@ -244,7 +270,8 @@ Definition sv_size_op (o : op) : bool :=
   | InsertRange _ _ _ | MoveInsertRange _ _ _ | EmplaceAt _ _ _ | EraseAt _ _ | EraseRange _ _ _ | Clear _ | Resize _ _
   | ResizeVal _ _ _ | AssignN _ _ _ | AssignRange _ _ | Swap | CopyAssign _ | MoveAssign _ | CopyConstruct _
   | MoveConstruct _ | MoveRoundTrip _ | SelfCopyAssign _ | SelfMoveAssign _ | SelfSwap _
-  | FlatExtract _ | FlatReplace _ _ | CtorN _ | CtorNVal _ _ | CtorRange _ => true
+  | FlatExtract _ | FlatReplace _ _ | CtorN _ | CtorNVal _ _ | CtorRange _
+  | InsertRangeFwd _ _ _ | MoveInsertRangeFwd _ _ _ | AssignRangeFwd _ _ | CtorRangeFwd _ | CtorMoveArr _ => true
   | _ => false
   end.
 Definition iv_size_op (o : op) : bool :=
@@ -290,7 +317,7 @@ Proof.
     unfold step_sv; cbv zeta; try destruct t; unfold sizes_of; cbn [cid sel upd negb fst snd]; sb.
   all: rewrite ?o_push_back, ?o_emplace_back, ?o_pop_back, ?o_insert_cr, ?o_insert_rv, ?o_insert_n, ?o_insert_range,
          ?o_move_insert, ?o_emplace_at, ?o_erase_at, ?o_erase_range, ?o_clear, ?o_resize, ?o_resize_val, ?o_assign_n,
-         ?o_assign_range, ?o_copy_assign, ?o_move_assign, ?o_copy_construct, ?o_move_construct by assumption.
+         ?o_assign_range, ?o_insert_range_fwd, ?o_move_insert_fwd, ?o_assign_range_fwd, ?o_copy_assign, ?o_move_assign, ?o_copy_construct, ?o_move_construct by assumption.
   all: rewrite ?o_emplace_all by lia; rewrite ?map_length; cbn [Nat.add].
   all: rewrite ?(o_swap_distinct 0 _ 1 _ eq_refl H0 H1), ?o_swap_self by assumption.
   all: sb; rewrite ?o_move_assign by assumption; sb.
@@ -298,7 +325,7 @@ Proof.
   all: unfold exts; rewrite ?map_length, ?seq_length.
   all: spec_side.
   all: repeat (progress (dcmp; sb;
-                         rewrite ?o_emplace_n, ?o_insert_n, ?o_insert_range, ?o_move_assign, ?o_clear by lia;
+                         rewrite ?o_emplace_n, ?o_insert_n, ?o_insert_range, ?o_insert_range_fwd, ?o_move_insert, ?o_move_assign, ?o_clear by lia;
                          rewrite ?map_length, ?seq_length)).
   all: timeout 20 fin_op.
 Qed.
